@@ -1088,13 +1088,16 @@ def model_driver(ctx, name="drv_calcore"):
             os.path.join(vplib.VERIF, "ocaml", "Extract_%s.v" % mod),
             os.path.join(vplib.VERIF, "ocaml", "glue.ml.inc"),
             os.path.join(vplib.COQDIR, "Gen", "LayoutGen.v")]
-    deps += glob.glob(os.path.join(vplib.COQDIR, "Cal", "*.v"))
     if mod != "calcore":
-        deps += glob.glob(os.path.join(vplib.COQDIR, "Lin", "Lu*.v")) + glob.glob(os.path.join(vplib.COQDIR, "Lin", "MatL.v"))
+        # the files Cal/CalQI.v depends on (models only: editing a proof file does not rebuild the driver)
+        deps += [os.path.join(vplib.COQDIR, "Cal", f) for f in
+                 ("Sym.v", "ApplyModel.v", "SolveSimple.v", "CalQI.v", "TermsModel.v", "AddModel.v")]
+        deps += [os.path.join(vplib.COQDIR, "Lin", f) for f in
+                 ("MatL.v", "LuModel.v", "LuQI.v", "LuQI2.v", "LsSpec.v")]
         deps += glob.glob(os.path.join(vplib.COQDIR, "Base", "*.v"))
     else:
-        deps = [d for d in deps if os.path.basename(d) in ("TermsModel.v", "AddModel.v", "LayoutGen.v",
-                                                           name + ".ml", "Extract_%s.v" % mod)]
+        deps = [d for d in deps if not d.endswith("glue.ml.inc")]
+        deps += [os.path.join(vplib.COQDIR, "Cal", f) for f in ("TermsModel.v", "AddModel.v")]
 
     def fresh():
         return os.path.exists(exe) and all(os.path.getmtime(d) <= os.path.getmtime(exe) for d in deps if os.path.exists(d))
